@@ -41,7 +41,7 @@ from pybrops.popgen.gmap.HaldaneMapFunction import HaldaneMapFunction
 from pybrops.core.random import sampling as _sampling  # noqa: F401
 
 PROP = "C07"
-RUNS = {"quick": 16000, "thorough": 500000}
+RUNS = {"quick": 10000, "thorough": 500000}
 WALL = {"quick": 240, "thorough": 2700}
 RUN_TIMEOUT = 180
 RULE = ("scenario = protocol family (ebv, gebv, random, ocs, ohv, uc) x decision encoding (subset/real/integer/binary; mate-selection for ohv/uc), "
@@ -81,10 +81,17 @@ def generate(R, tier):
         enc = R.choice(["subset", "subset", "real"])
     nt = R.randint(4, 9)
     ncross = R.randint(1, 5)
+    nparent = 2 if fam == "uc" else R.choice([2, 2, 2, 3, 4])      # the usefulness criterion is defined for two-way crosses
     if enc == "subset" and fam not in ("ohv", "uc"):
-        ncross = min(ncross, nt // 2)          # a subset solution names ncross*nparent distinct individuals
+        ncross = max(1, min(ncross, nt // nparent))          # a subset solution names ncross*nparent distinct individuals
+        if ncross * nparent > nt:
+            nparent = 2
+            ncross = max(1, min(ncross, nt // 2))
+    if fam in ("ohv", "uc") and enc == "subset":
+        import math
+        ncross = max(1, min(ncross, math.comb(nt, nparent)))   # a subset of the candidate crosses (unordered parent sets)
     return {"fam": fam, "enc": enc, "world": {"seed": R.randrange(1 << 30), "ntaxa": nt, "nvrnt": R.randint(4, 10), "ntrait": R.randint(1, 2)},
-            "ncross": ncross, "nparent": 2, "nmating": R.randint(1, 2), "nprogeny": R.randint(1, 3),
+            "ncross": ncross, "nparent": nparent, "nmating": R.randint(1, 2), "nprogeny": R.randint(1, 3),
             "mo": R.random() < 0.3, "exact": R.random() < 0.6, "seed": R.randrange(1 << 31), "entropy_world": R.randrange(1000),
             "rng": {"kind": R.choice(["Generator", "RandomState"]), "seed": R.randrange(1 << 30),
                     "script": ([] if R.random() < 0.6 else [{"method": "shuffle", "mode": R.choice(["identity", "reverse", "rotate"])}])},
@@ -96,14 +103,14 @@ def shrink(sc):
         c = copy.deepcopy(sc)
         c["rng"]["script"] = []
         yield c
-    for k, small in (("ncross", 1), ("nmating", 1), ("nprogeny", 1), ("ngen", 1)):
+    for k, small in (("ncross", 1), ("nmating", 1), ("nprogeny", 1), ("ngen", 1), ("nparent", 2)):
         if sc[k] > small:
             c = copy.deepcopy(sc)
             c[k] -= 1
             yield c
     w = sc["world"]
     for k, small in (("ntaxa", 4), ("nvrnt", 4), ("ntrait", 1)):
-        if w[k] > small and not (k == "ntaxa" and sc["enc"] == "subset" and (w[k] - 1) // 2 < sc["ncross"]):
+        if w[k] > small and not (k == "ntaxa" and sc["enc"] == "subset" and ((w[k] - 1) // sc["nparent"] < sc["ncross"] or sc["fam"] in ("ohv", "uc"))):
             c = copy.deepcopy(sc)
             c["world"][k] -= 1
             yield c
@@ -206,6 +213,15 @@ def execute(sc):
         if not set(rows) <= allowed:
             V.append(viol("xconfig-members", CC, "outside-solution", "crosses %s not among the candidate crosses chosen by the solution %s" % (sorted(set(rows) - allowed), sorted(allowed))))
             return _out(sc, V, log, faults, probes, True, g)
+        if fam in ("ohv", "uc") and any(len(set(r)) != len(r) for r in rows):
+            bad = [r for r in rows if len(set(r)) != len(r)][0]
+            V.append(viol("unique-parents-respected", C, "self-pairing", "unique_parents=True but cross %s pairs an individual with itself (crosses %s)" % (list(bad), xc.tolist())))
+            return _out(sc, V, log, faults, probes, True, g)
+        if fam in ("ohv", "uc"):
+            allc = [tuple(sorted(r)) for r in numpy.asarray(cfg.xconfig_xmap).tolist()]
+            if len(set(allc)) != len(allc):
+                V.append(viol("unique-parents-respected", C, "duplicate-candidate-cross", "the candidate cross map lists the same set of parents more than once (%d candidates, %d distinct)" % (len(allc), len(set(allc)))))
+                return _out(sc, V, log, faults, probes, True, g)
         if enc == "subset" and len(set(units)) == len(units):
             cnt = [rows.count(u) for u in units]
             if max(cnt) - min(cnt) > 1:
